@@ -684,6 +684,17 @@ func emitGame(c *Ctx, g *genGame) {
 	}
 	hx := hexEnc(text)
 	c.Emit("ptnparse " + hx)
+	if c.R.Chance(1, 4) {
+		// through a file on disk; and with CR LF line ends, also inside comments and between tokens
+		c.Emit("ptnfile " + hx)
+		crlf := bytes.ReplaceAll(text, []byte("\n"), []byte("\r\n"))
+		if i := bytes.IndexByte(crlf, '{'); i >= 0 {
+			crlf = append(append(append([]byte{}, crlf[:i+1]...), []byte("x\r\ny ")...), crlf[i+1:]...)
+		}
+		c.Emit("ptnparse " + hexEnc(crlf))
+		c.Emit("ptnfile " + hexEnc(crlf))
+		c.Count("through-file")
+	}
 	if c.R.Chance(1, 2) {
 		// the parsed game edited by a tool (annotations, comments), then rendered
 		mods := []string{"", "!", "?", "'", "!!", "?'", "!?"}[c.R.Intn(7)]
